@@ -250,6 +250,8 @@ package kcp
 //@   ensures @C10 [accepted-mtu-keeps-invariant] result == 0 ==> kcp.wf()
 //@   ensures @C10 [refused-mtu-changes-nothing] result != 0 ==> kcp.mtu == old(kcp.mtu) && kcp.mss == old(kcp.mss) && kcp.buffer == old(kcp.buffer)
 //@   ensures result == 0 || result == 0 - 1
+//@   loop 1 invariant forall j int :: 0 <= j && j < _i ==> len(kcp.snd_queue.at(j).data) <= mss
+//@   loop 2 invariant forall j int :: 0 <= j && j < _i ==> len(kcp.snd_buf.at(j).data) <= mss
 //
 //@ func KCP.WndSize
 //@   requires kcp.wf()
